@@ -27,6 +27,7 @@ func runC05(c *fw.Ctx) {
 	r51(c)
 	r52(c)
 	r53(c)
+	comparableBothDirections(c, "R5.4")
 }
 
 func bigPow2(n int) *big.Int { return new(big.Int).Lsh(big.NewInt(1), uint(n)) }
